@@ -340,6 +340,26 @@ let handle (line : String.t) : String.t =
         else if starts "contains=" then fiter_text !it ^ "/" ^ bool01 (it_contains !it (arg "contains="))
         else failwith "iter cmd") cmds in
     String.concat " " ("ok" :: out)
+  | "bcx" :: cap :: ops ->
+    (* the event channel model (Broadcast.v: async-broadcast as Events::new() configures it) on one operation list *)
+    let arg o = n_of_string (String.sub o 1 (String.length o - 1)) in
+    let parse o =
+      if o = "n" then BNew else if o = "l" then BLen
+      else if String.length o < 2 then failwith "bcx op"
+      else match o.[0] with
+        | 's' -> BSend (arg o) | 'r' -> BRecv (arg o) | 'd' -> BDrop (arg o)
+        | _ -> failwith "bcx op" in
+    let show = function
+      | BoSent None -> "ok" | BoSent (Some d) -> "ok:" ^ string_of_n d
+      | BoFull -> "full" | BoSendClosed -> "closed" | BoInactive -> "inactive"
+      | BoNew k -> "id:" ^ string_of_n k
+      | BoMsg m -> "m:" ^ string_of_n m | BoOverflowed n -> "ov:" ^ string_of_n n
+      | BoEmpty -> "empty" | BoRecvClosed -> "closed"
+      | BoDropped -> "done" | BoNoReceiver -> "x"
+      | BoLen (n, rc) -> "n:" ^ string_of_n n ^ ":" ^ string_of_n rc
+      | BoPanic -> "panic" in
+    if n_of_string cap = N0 then "err Protocol"
+    else String.concat " " ("ok" :: List.map show (run_bc_n (n_of_string cap) (List.map parse ops)))
   | "ramx" :: ps :: ops ->
     (* the paged in-memory backend model (PagedMem.v) and the flat file model (Storage.v) on one operation list *)
     let parse o = match String.split_on_char ':' o with
@@ -355,6 +375,30 @@ let handle (line : String.t) : String.t =
           | OLen n -> "n:" ^ string_of_n n) obs) ^ " | " ^ hex_of_bytes content in
     let l = List.map parse ops in
     "ok " ^ show (run_ram (n_of_string ps) l) ^ " || " ^ show (run_file l)
+  | "diskx" :: _dir :: ops ->
+    (* the disk backend model (DiskFile.v: random-access-disk over a POSIX file; a single read delivers at most 2 MiB as under
+       tokio) with hole punching, the same with `del` writing zeros, and the flat file model (Storage.v) on one operation list;
+       `o` = drop and open again. Answer: punch || zeros || flat || tight=ops_tight *)
+    let parse o = match String.split_on_char ':' o with
+      | ["w"; off; hx] -> Dop (W (n_of_string off, bytes_of_hex hx))
+      | ["r"; off; n] -> Dop (R (n_of_string off, n_of_string n))
+      | ["d"; off; n] -> Dop (D (n_of_string off, n_of_string n))
+      | ["t"; n] -> Dop (T (n_of_string n))
+      | ["l"] -> Dop L
+      | ["o"] -> Reopen
+      | _ -> failwith "diskx op" in
+    let obs_text obs =
+      String.concat " " (List.map (function
+          | ODone -> "done" | OBytes b -> "b:" ^ hex_of_bytes b | OOutOfBounds -> "oob"
+          | OLen n -> "n:" ^ string_of_n n) obs) in
+    let show3 ((obs, content), raw) = obs_text obs ^ " | " ^ hex_of_bytes content ^ " | " ^ hex_of_bytes raw in
+    let show2 (obs, content) = obs_text obs ^ " | " ^ hex_of_bytes content in
+    let l = List.map parse ops in
+    let cap = Some (n_of_string "2097152") in
+    "ok " ^ show3 (run_rad { dc_sparse = true; dc_read_cap = cap } l)
+    ^ " || " ^ show3 (run_rad { dc_sparse = false; dc_read_cap = cap } l)
+    ^ " || " ^ show2 (run_dfile l)
+    ^ " || tight=" ^ bool01 (ops_tight file_empty l)
   | ["stats"] -> Printf.sprintf "ok hash_calls=%d" !hash_calls
   | _ -> "err Protocol"
 
